@@ -97,26 +97,61 @@ func genRegex(t *rapid.T, pool []string, label string) string {
 	return "."
 }
 
-func genRange(t *rapid.T) string {
+func genRange(t *rapid.T, p *gen.Prof) string {
 	units := []string{"", "b", "kb", "mb", "ms", "s", "us", "bytes", "KB"}
-	num := func(l string) string {
-		return strconv.Itoa(rapid.SampledFrom([]int{0, 1, 2, 3, 4, 16, 1000, 1024, 4096, 5000}).Draw(t, l))
+	// values (and the unit) of the profile's own numeric labels: bounds that coincide with a label exercise the
+	// inclusive ends of the range, wide two-sided ranges have labels of other unit families numerically inside
+	type lv struct {
+		v int64
+		u string
+	}
+	var own []lv
+	for _, sm := range p.Samples {
+		for _, n := range sm.Nums {
+			for _, v := range n.Vals {
+				if v >= 0 {
+					own = append(own, lv{v, keyUnit[n.Key]})
+				}
+			}
+		}
 	}
 	u := rapid.SampledFrom(units).Draw(t, "runit")
+	num := func(l string) string {
+		if len(own) > 0 && rapid.Bool().Draw(t, l+"own") {
+			o := rapid.SampledFrom(own).Draw(t, l+"ownv")
+			if u == "" || rapid.Bool().Draw(t, l+"ownunit") {
+				u = o.u
+			}
+			return strconv.FormatInt(o.v, 10)
+		}
+		return strconv.Itoa(rapid.SampledFrom([]int{0, 1, 2, 3, 4, 16, 1000, 1024, 4096, 5000, 1 << 20, 1 << 30}).Draw(t, l))
+	}
 	switch rapid.IntRange(0, 3).Draw(t, "rform") {
 	case 0:
-		return num("n") + u
+		n := num("n")
+		return n + u
 	case 1:
-		return num("n") + u + ":"
+		n := num("n")
+		return n + u + ":"
 	case 2:
-		return ":" + num("n") + u
+		n := num("n")
+		return ":" + n + u
 	}
+	n1 := num("n1")
+	u1 := u
+	n2 := num("n2")
 	u2 := u
-	if u != "" && rapid.Bool().Draw(t, "u2diff") {
-		fam := map[string][]string{"b": {"kb", "mb"}, "kb": {"b", "mb"}, "mb": {"kb"}, "ms": {"s", "us"}, "s": {"ms"}, "us": {"ms"}, "bytes": {"kb"}, "KB": {"mb"}}
-		u2 = rapid.SampledFrom(fam[u]).Draw(t, "u2")
+	if u2 != u1 {
+		// the second bound took the unit of a label of its own: keep the two bounds in one spelling family
+		u2 = u1
 	}
-	return num("n1") + u + ":" + num("n2") + u2
+	if u1 != "" && rapid.Bool().Draw(t, "u2diff") {
+		fam := map[string][]string{"b": {"kb", "mb"}, "kb": {"b", "mb"}, "mb": {"kb"}, "ms": {"s", "us"}, "s": {"ms"}, "us": {"ms"}, "bytes": {"kb"}, "KB": {"mb"}, "seconds": {"ms"}}
+		if alt := fam[u1]; len(alt) > 0 {
+			u2 = rapid.SampledFrom(alt).Draw(t, "u2")
+		}
+	}
+	return n1 + u1 + ":" + n2 + u2
 }
 
 func genTagFilter(t *rapid.T, p *gen.Prof, label string) string {
@@ -139,7 +174,7 @@ func genTagFilter(t *rapid.T, p *gen.Prof, label string) string {
 		key = rapid.SampledFrom(keys).Draw(t, label+"key") + "="
 	}
 	if rapid.IntRange(0, 2).Draw(t, label+"isrange") == 0 {
-		return key + genRange(t)
+		return key + genRange(t, p)
 	}
 	// letters-only regexps so that they cannot be mistaken for a range
 	clean := func(s string) string {
